@@ -16,7 +16,7 @@ def native_replay(prop, unit, pr, scratch, repo, verif):
     vals = {}
     for st in pr.get('trace', []):
         lhs = st.get('lhs')
-        if lhs and re.match(r'^in_\w+$', lhs) and st.get('value') is not None:
+        if lhs and re.match(r'^(in|gh)_\w+$', lhs) and st.get('value') is not None:
             vals[lhs] = str(st['value'])
     args = [rp.get('mode', prop)] + ['%s=%s' % kv for kv in sorted(vals.items())]
     try:
